@@ -105,6 +105,7 @@ func Templates() []Program {
 		P("pput(d/y)", PPut("d/y", "21")),
 		P("pget(a)", PGet("a")),
 		P("pput(b)pget(a)", PPut("b", "22"), PGet("a")),
+		P("pput(b,'')", PPut("b", "")),
 	}
 }
 
@@ -170,7 +171,11 @@ func replayAt(S map[string]string, obs []Obs) string {
 		case "get":
 			v, ok := cur[o.Step.Key]
 			if ok != o.Found || (ok && v != o.Val) {
-				return fmt.Sprintf("op %d %s observed (%q,%v) but serial value is (%q,%v)", i, o.Step, o.Val, o.Found, v, ok)
+				cls := ""
+				if v == "" && o.Val == "" && ok != o.Found {
+					cls = "[missing-vs-empty] "
+				}
+				return fmt.Sprintf("%sop %d %s observed (%q,%v) but serial value is (%q,%v)", cls, i, o.Step, o.Val, o.Found, v, ok)
 			}
 		case "list":
 			want := kvc.RefList(cur, o.Step.Key)
@@ -299,7 +304,11 @@ func (c *Checker) OnComplete(p int, st Step, o Obs) *Violation {
 		}
 		if o.Err == "" {
 			if msg := replayAt(c.cur(), t.obs); msg != "" {
-				return &Violation{"committed-stale-read", "transaction committed although " + msg}
+				kind := "committed-stale-read"
+				if strings.HasPrefix(msg, "[missing-vs-empty] ") {
+					kind += ":missing-vs-empty"
+				}
+				return &Violation{kind, "transaction committed although " + msg}
 			}
 			n := clone(c.cur())
 			for _, ob := range t.obs {
